@@ -564,6 +564,29 @@ impl Rewriter {
         Some(parse_quote!( #f(#l, #r) ))
     }
 
+    // ---- R-boolor: `a | b` on two parenthesised boolean expressions (non-short-circuit or) ----------
+    fn r_boolor(&mut self, e: &Expr) -> Option<Expr> {
+        let Expr::Binary(b) = e else { return None };
+        if !matches!(b.op, BinOp::BitOr(_)) {
+            return None;
+        }
+        // only the unambiguous shape `(cmp) | (cmp)`: both operands are parenthesised comparisons
+        let is_cmp = |x: &Expr| -> bool {
+            if let Expr::Paren(p) = x {
+                if let Expr::Binary(bb) = &*p.expr {
+                    return matches!(bb.op, BinOp::Eq(_) | BinOp::Ne(_) | BinOp::Lt(_) | BinOp::Le(_) | BinOp::Gt(_) | BinOp::Ge(_));
+                }
+            }
+            false
+        };
+        if !is_cmp(&b.left) || !is_cmp(&b.right) {
+            return None;
+        }
+        let l = &b.left;
+        let r = &b.right;
+        Some(parse_quote!( vx_bor(#l, #r) ))
+    }
+
     // ---- R-destruct: `(a, _, b) = e;`  ->  `{ let (t0, _, t2) = e; a = t0; b = t2; }` --------------
     fn r_destruct(&mut self, e: &Expr) -> Option<Expr> {
         let Expr::Assign(a) = e else { return None };
@@ -954,6 +977,13 @@ impl VisitMut for Rewriter {
                 return;
             }
         }
+        if self.on("R-boolor") {
+            if let Some(n) = self.r_boolor(e) {
+                self.record("R-boolor", line, e, &n);
+                *e = n;
+                return;
+            }
+        }
         if self.on("R-destruct") {
             if let Some(n) = self.r_destruct(e) {
                 self.record("R-destruct", line, e, &n);
@@ -1057,6 +1087,7 @@ pub fn selftest() -> i32 {
         ("{ normal.sample_iter(&mut self.rng).zip(current).map(|(x, eps)| x + *eps).collect() }", &["R-samplezip"], "for __vx_k1 in 0 .. current . len () { let x = normal . sample (& mut self . rng) ; let eps = & current [__vx_k1] ; __vx_out1 . push (x + * eps) ; } let _ = normal . sample (& mut self . rng) ; __vx_out1", &["R-samplezip"]),
         ("{ for _ in 0..n { v.push(r.random()); } }", &["R-wild"], "for __vx_i1 in 0 .. n { v . push (r . random ()) ; }", &["R-wild"]),
         ("{ (_, m, _, u) = lf(p); }", &["R-destruct"], "{ let (_ , __vx_t1 , _ , __vx_t2) = lf (p) ; m = __vx_t1 ; u = __vx_t2 ; }", &["R-destruct"]),
+        ("{ if (now >= last + freq) | (i == total - 1) { f(); } }", &["R-boolor"], "if vx_bor ((now >= last + freq) , (i == total - 1)) { f () ; }", &["R-boolor"]),
         // nothing enabled: nothing changes
         ("{ (0..n).for_each(|i| v[i] = 0.5); }", &[], "(0 .. n) . for_each (| i | v [i] = 0.5) ;", &[]),
     ];
